@@ -88,11 +88,20 @@ PROPS = ()
 
 def init_worker(*props):
     global PROPS
-    PROPS = props
+    PROPS = props[:1]
+    if len(props) > 1 and props[1] == "B":
+        return  # engine B workers keep the real physics; the replay installs and removes the seams itself
     X.init_worker()
 
 
 def run_case(case):
+    if case.get("engine") == "B":
+        from vf import explore_physics as EP, worlds
+
+        worlds.uninstall()  # a replay process may have installed the fake-physics seams: the real run needs the real physics
+        X._MGR.clear()
+        EP.init_worker()
+        return EP.run_chunk(case, PROPS)
     return X.run_chunk(case, PROPS)
 
 
@@ -108,6 +117,14 @@ def main_for(prop, run: core.Run, rule_extra: str, require=(), only=None):
             run.cap(f"family {fam} skipped by --only (debug run)")
             continue
         run.drive(chs, family=fam, init_args=(prop,))
+    if not only or "B" in only:
+        from vf import explore_physics as EP
+
+        bcases = [dict(c, engine="B") for c in EP.product(run.tier, prop)]
+        bres = run.drive(bcases, family="B", init_args=(prop, "B"))
+        validated = sum(r["stats"].get("traces_validated", 0) for r in bres)
+    else:
+        validated = 0
     rule = (
         "one evaluation = one complete GHEManager.find_design() of the real search code over a fake-physics world "
         "(families A1 monotone thresholds (A1Z: a temperature limit of exactly 0), A7 reconfiguration histories on one manager, A2 sign patterns, A3 sign x rank, A4 nested lists, A5 real candidate lists and A6 the real RowWise "
@@ -120,13 +137,15 @@ def main_for(prop, run: core.Run, rule_extra: str, require=(), only=None):
         rule=rule,
         bounds={"A1_list_length": 64 if run.tier == "thorough" else 24, "A2_patterns_n": 10 if run.tier == "thorough" else 8,
                 "A3_n": 5, "A4_lists_x_candidates": "3x5" if run.tier == "thorough" else "3x4",
-                "A5_lots": 6 if run.tier == "thorough" else 2, "A6_rowwise_lots": 3 if run.tier == "thorough" else 2, "height_window": [X.HMIN, X.HMAX]},
+                "B_real_runs": len(bcases) if (not only or "B" in only) else 0, "A5_lots": 6 if run.tier == "thorough" else 2, "A6_rowwise_lots": 3 if run.tier == "thorough" else 2, "height_window": [X.HMIN, X.HMAX]},
         assumptions=[
             "worlds: excess strictly decreasing in height (linear or hyperbolic) with one root per field; never exactly 0 at a bound",
             "the physics is replaced below search_routines.GHE.simulate / calc_g_func_for_multiple_lengths; everything "
             "above (search classes, GHE.__init__/cost/size, solve_root, brentq, GHEManager.find_design) is the real code",
             "cap=1 (no candidate with fewer boreholes than the cap) is treated as degenerate input and not explored",
+            "family B: real pygfunction physics on a 40 x 25 m lot, 24 / 37 month horizons; each real run's query trace is replayed through the "
+            "world seam (table world) and must give the identical query sequence, selection and height (traces_validated_against_impl)",
         ],
-        traces_validated=0,
+        traces_validated=validated,
         require_outcomes=require,
     )
